@@ -19,6 +19,7 @@ TRANSFORMS = [
     "X7 `impl Trait` in argument position is kept; visibility qualifiers pub(crate)/pub(super) are rewritten to pub",
     "X9 assert_eq!(a, b) / debug_assert_eq!(a, b) -> assert!((a) == (b)) / debug_assert!((a) == (b)) (same panic condition; the formatted message, which needs Debug, is dropped)",
     "X10 (directive //@closure) an inline closure `|x| expr` is given parameter and return types and a ghost contract: `|x: T| -> (r: U) ensures .. { expr }`; the body expression is verbatim",
+    "X12 panic!(fmt, args..) -> panic!(\"..\") : the panic (a proof obligation) is kept, the formatted message dropped",
     "X11 (directive //@deimpl, unit c19_map only) `f: impl Bound` in argument position -> `f: ImplN` with a generic parameter `ImplN: Bound` (the desugaring rustc performs; Verus 0.2026.09.13 crashes on `requires` over impl-Trait arguments of trait methods)",
     "X8 where Verus forbids `requires` on an impl of a std trait (Iterator::next), the extracted method body is checked as an impl of a local trait of the same shape declared in the unit (c10_earcut_glue: IteratorWithInvariant)",
 ]
@@ -237,6 +238,19 @@ def transform_code(text):
                     if ''.join(cur).strip(): args.append(''.join(cur))
                     if len(args) >= 2:
                         out.append('%s!((%s) == (%s))' % (t[1][:-3], transform_code(args[0].strip()), transform_code(args[1].strip())))
+                        k = c + 1
+                        continue
+        if t[0] == 'ident' and t[1] == 'panic':
+            j = next_sig(k + 1)
+            if j < n and toks[j][1] == '!':
+                o = next_sig(j + 1)
+                if o < n and toks[o][1] in OPEN:
+                    c = match_close(toks, o)
+                    inner = [x for x in toks[o + 1:c] if x[0] not in ('ws', 'lcomment', 'bcomment')]
+                    if len(inner) > 1:
+                        # X12: a formatted panic message needs Display / fmt machinery Verus does not model: the panic is kept,
+                        # its message dropped
+                        out.append('panic!("(X12: formatted message dropped)")')
                         k = c + 1
                         continue
         if t[0] == 'ident' and t[1] in LOG_MACROS:
